@@ -52,7 +52,7 @@ def run_std(rep, b, wd, std, utf8_expect):
 
 
 def compare(rep, std, order, out):
-    lines = [l for l in out.splitlines() if not l.startswith(("UTF8 ", "CMP ", "AR "))]
+    lines = [l for l in out.splitlines() if not l.startswith(("UTF8 ", "CMP ", "AR ", "IT "))]
     exp, owners = [], []
     for (m, j, c) in order:
         e = F.expected_line_cpp(m, j, c)
@@ -109,6 +109,10 @@ def run(tier):
         if cm != F.cmp_expected() and (cm or not rep.violations):
             rep.violation("C02|%s|comparison-operators" % std, {"expected": F.cmp_expected(), "observed": cm},
                           "C++ (%s) operators of a type with a comparison method disagree with Rust's ordering: %s" % (std, [l for l in cm if l not in F.cmp_expected()][:2]))
+        itl = [l for l in r["out"].splitlines() if l.startswith("IT ")]
+        if itl != F.it_expected() and (itl or not rep.violations):
+            rep.violation("C02|%s|iterable-adapter" % std, {"expected": F.it_expected(), "observed": itl},
+                          "C++ (%s) iterator adapter of an iterable does not show Rust's sequence: %s" % (std, [l for l in itl if l not in F.it_expected()][:3]))
         ar = [l for l in r["out"].splitlines() if l.startswith("AR ")]
         if ar != F.ar_expected() and (ar or not rep.violations):
             rep.violation("C02|%s|arithmetic-operators" % std, {"expected": F.ar_expected(), "observed": ar},
